@@ -1405,7 +1405,7 @@ def faces_model(out, tier, seed=0, measure=False):
             f.write(json.dumps(i) + "\n")
     fams = fams + [("sim", fam((1, 1, 1), 3, False, 1, 1, order="fixed", fix=False, view=False))]
     for name, spec in fams:
-        cfg = os.path.join(OUT, "tlc", "vfaces_%s.cfg" % name)
+        cfg = os.path.join(OUT, "tlc", "vfaces_%s_%s.cfg" % (out.prop, name))
         consts = dict(Inputs=("<-", "MCInputs"), Ties="keep", Order="fixed", LGx=spec["G"][0], LGy=spec["G"][1], LGz=spec["G"][2],
                       LDim=spec["dim"], LPer=spec["per"], LNmin=spec["nmin"], LNmax=spec["nmax"], LFix=spec["fix"], UseFile=(name == "sim"), Emit=False)
         write_cfg(cfg, constants=consts, invariants=["TypeOK", "Closed", "Euler", "Oriented", "FacesOK", "CcwInward", "OrderIndependent", "DecompOK"]
